@@ -571,6 +571,50 @@ pub fn make_reduced(g: &mut AG, rng: &mut Rng) {
 pub fn gen_nullable(rng: &mut Rng) -> AG {
     let o = GenOpts { max_rules: 6, max_tokens: 4, max_alts: 3, max_syms: 4, empty_pct: 45, reduced: true };
     let mut g = gen_random(rng, &o, "nullable-heavy");
+    if rng.chance(1, 2) {
+        // a chain of unit productions ending in an empty production, declared top-down, so that
+        // nullability/FIRST have to travel against the declaration order over several rounds
+        let depth = rng.range(2, 5);
+        let base = g.rules.len();
+        for i in 0..depth {
+            g.rule(&format!("N{i}"));
+        }
+        for i in 0..depth {
+            let r = base + i;
+            if i + 1 < depth {
+                if rng.chance(1, 4) && !g.tokens.is_empty() {
+                    let t = rng.below(g.tokens.len());
+                    g.add_prod(r, vec![ASym::T(t)]);
+                }
+                if rng.chance(1, 3) {
+                    g.add_prod(r, vec![ASym::R(r + 1), ASym::R(base + rng.range(i + 1, depth - 1))]);
+                } else {
+                    g.add_prod(r, vec![ASym::R(r + 1)]);
+                }
+            } else {
+                g.add_prod(r, vec![]);
+            }
+        }
+        // use the chain head from an existing rule, before / between / after tokens
+        let host = rng.below(base);
+        let nt = g.tokens.len().max(1);
+        let (t1, t2) = (rng.below(nt), rng.below(nt));
+        if g.tokens.is_empty() {
+            g.tok("a");
+        }
+        let syms = match rng.below(4) {
+            0 => vec![ASym::R(base), ASym::T(t1)],
+            1 => vec![ASym::T(t1), ASym::R(base), ASym::T(t2)],
+            2 => vec![ASym::T(t1), ASym::R(base)],
+            _ => vec![ASym::R(base), ASym::R(host), ASym::T(t1)],
+        };
+        // put the host production first half of the time (so the chain is "below" its user)
+        if rng.chance(1, 2) {
+            g.rules[host].prods.insert(0, AProd { syms, prec: None, action: None });
+        } else {
+            g.add_prod(host, syms);
+        }
+    }
     // force at least one production with a nullable rule in first, middle and last position
     let nul = crate::refs::nullable(&g);
     let nulls: Vec<usize> = (0..g.rules.len()).filter(|r| nul[*r]).collect();
@@ -712,6 +756,17 @@ pub fn gen_expr(rng: &mut Rng) -> AG {
         let lp = g.tok("(");
         let rp = g.tok(")");
         g.add_prod(e, vec![ASym::T(lp), ASym::R(e), ASym::T(rp)]);
+    }
+    if rng.chance(2, 5) {
+        // mixfix / ternary / postfix-marked productions: the *last* token decides the precedence
+        let o1 = *rng.pick(&optoks);
+        let extra = ["?", ":", "!", "x"];
+        let o2 = if rng.chance(1, 2) { *rng.pick(&optoks) } else { let t = g.tok(*rng.pick(&extra[..])); if rng.chance(1, 2) { optoks.push(t); } t };
+        match rng.below(3) {
+            0 => g.add_prod(e, vec![ASym::R(e), ASym::T(o1), ASym::R(e), ASym::T(o2), ASym::R(e)]),
+            1 => g.add_prod(e, vec![ASym::R(e), ASym::T(o1), ASym::R(e), ASym::T(o2)]),
+            _ => g.add_prod(e, vec![ASym::T(o2), ASym::R(e), ASym::T(o1), ASym::R(e)]),
+        }
     }
     if rng.chance(1, 4) {
         // juxtaposition (application): E: E E
